@@ -760,16 +760,18 @@ Proof.
   now rewrite (state_inline_refs s s' H), (state_block_refs s s' H).
 Qed.
 
-Lemma search_paths_of_state s s' : state_equiv s s' -> forall ps, search_paths_of s ps = search_paths_of s' ps.
+Lemma sp_entries_state s s' : state_equiv s s' -> forall ps, sp_entries s ps = sp_entries s' ps.
 Proof.
-  intros H ps. pose proof H as [Hg [Hl _]]. unfold search_paths_of. rewrite <- Hg.
-  match goal with |- bind ?x _ = bind ?y _ => assert (E : x = y); [|now rewrite E] end.
+  intros H ps. pose proof H as [Hg [Hl _]]. unfold sp_entries. rewrite <- Hg.
   induction ps as [|p ps IH]; cbn [fold_right]; [reflexivity|]. rewrite IH. clear IH.
   match goal with |- bind ?x _ = _ => destruct x as [r|e]; [|reflexivity] end. cbn [bind].
-  destruct (render_search_text _ p) as [t|e]; [|reflexivity]. cbn [bind].
+  destruct (texts_of _ p) as [t|e]; [|reflexivity]. cbn [bind].
   destruct (last_id p) as [target|e]; [|reflexivity]. cbn [bind].
   rewrite (node_rank_state s s' H). unfold node_line_range. now rewrite Hl.
 Qed.
+
+Lemma search_paths_of_state s s' : state_equiv s s' -> forall ps, search_paths_of s ps = search_paths_of s' ps.
+Proof. intros H ps. unfold search_paths_of. now rewrite (sp_entries_state s s' H). Qed.
 
 (* the search index (Database.paths) does not see the representation of the RefIndex *)
 Theorem search_paths_state filt s s' : state_equiv s s' -> search_paths filt s = search_paths filt s'.
@@ -1178,53 +1180,311 @@ Proof.
   apply (export_order_irrelevant (fun k => to_markdown o (tables k) g' k)); [now apply Permutation_map | exact Nk].
 Qed.
 
-(* ---------- search_paths: the first stable sort (rank desc, then key asc) -------------------------- *)
+(* ---------- search_paths: the first stable sort ------------------------------------------------------
+   graph.rs:87-96 since the repair of F-SEARCHTIE: rank descending, then key, search text, line and the
+   heading texts of the chain.  The comparator reads nothing but the CONTENT of an entry ([sp_view]) and
+   is a total ORDER on contents (antisymmetric: two entries it cannot tell apart say the same), so the
+   sorted list, read without node ids, is a function of the multiset of contents. *)
 
-Lemma pstr_leb_total x y : Paths.str_leb x y = false -> Paths.str_leb y x = true.
+Lemma then_with_lt_trans c1 c2 c3 d1 d2 d3 :
+  (c1 = Lt -> c2 = Lt -> c3 = Lt) -> (c1 = Eq -> c3 = c2) -> (c2 = Eq -> c3 = c1) ->
+  (d1 = Lt -> d2 = Lt -> d3 = Lt) ->
+  then_with c1 d1 = Lt -> then_with c2 d2 = Lt -> then_with c3 d3 = Lt.
 Proof.
-  unfold Paths.str_leb. rewrite (String.compare_antisym y x). destruct (String.compare x y); cbn; congruence.
+  intros T E1 E2 D. destruct c1, c2; cbn [then_with]; intros H1 H2; try discriminate.
+  - rewrite (E1 eq_refl). cbn [then_with]. auto.
+  - rewrite (E1 eq_refl). reflexivity.
+  - rewrite (E2 eq_refl). reflexivity.
+  - rewrite (T eq_refl eq_refl). reflexivity.
 Qed.
 
-Lemma pstr_leb_trans x y z : Paths.str_leb x y = true -> Paths.str_leb y z = true -> Paths.str_leb x z = true.
+Lemma scmp_eq x y : String.compare x y = Eq -> x = y.
+Proof. apply String.compare_eq_iff. Qed.
+
+Lemma scmp_refl x : String.compare x x = Eq.
+Proof. pose proof (String.compare_antisym x x) as H. destruct (String.compare x x); cbn in H; congruence. Qed.
+
+Lemma scmp_lt_trans x y z : String.compare x y = Lt -> String.compare y z = Lt -> String.compare x z = Lt.
 Proof.
-  unfold Paths.str_leb. intros H1 H2.
-  destruct (String.compare x y) eqn:E1; [apply String.compare_eq_iff in E1; now subst | | discriminate].
-  destruct (String.compare y z) eqn:E2; [apply String.compare_eq_iff in E2; subst; now rewrite E1 | | discriminate].
-  assert (E3 : String.compare x z = Lt).
-  { change String.compare with OrdersEx.String_as_OT.compare in *.
-    exact (RelationClasses.StrictOrder_Transitive (R := OrdersEx.String_as_OT.lt) x y z E1 E2). }
-  now rewrite E3.
+  intros E1 E2. change String.compare with OrdersEx.String_as_OT.compare in *.
+  exact (RelationClasses.StrictOrder_Transitive (R := OrdersEx.String_as_OT.lt) x y z E1 E2).
+Qed.
+
+Lemma strs_cmp_eq l : forall m, strs_cmp l m = Eq -> l = m.
+Proof.
+  induction l as [|x l IH]; intros [|y m]; cbn [strs_cmp]; intros H; try discriminate; [reflexivity|].
+  unfold then_with in H. destruct (String.compare x y) eqn:E; try discriminate.
+  apply scmp_eq in E. subst y. f_equal. now apply IH.
+Qed.
+
+Lemma strs_cmp_refl l : strs_cmp l l = Eq.
+Proof. induction l as [|x l IH]; cbn [strs_cmp]; [reflexivity|]. now rewrite scmp_refl. Qed.
+
+Lemma strs_cmp_anti l : forall m, strs_cmp m l = CompOpp (strs_cmp l m).
+Proof.
+  induction l as [|x l IH]; intros [|y m]; cbn [strs_cmp]; try reflexivity.
+  rewrite (String.compare_antisym y x), (IH m). destruct (String.compare x y); reflexivity.
+Qed.
+
+Lemma strs_cmp_lt_trans l : forall m n, strs_cmp l m = Lt -> strs_cmp m n = Lt -> strs_cmp l n = Lt.
+Proof.
+  induction l as [|x l IH]; intros [|y m] [|z n]; cbn [strs_cmp]; intros H1 H2; try discriminate; try reflexivity.
+  revert H1 H2. apply then_with_lt_trans.
+  - apply scmp_lt_trans.
+  - intros H. apply scmp_eq in H. now subst.
+  - intros H. apply scmp_eq in H. now subst.
+  - apply IH.
+Qed.
+
+Ltac solve_cmp :=
+  first [ apply scmp_lt_trans
+        | rewrite !Nat.compare_lt_iff; lia
+        | let H := fresh in intros H; first [apply scmp_eq in H | apply Nat.compare_eq in H]; subst; reflexivity ].
+
+Lemma sv_cmp_eq x y : sv_cmp x y = Eq -> x = y.
+Proof.
+  destruct x as [[[[rx kx] tx] lx] cx], y as [[[[ry ky] ty] ly] cy]. unfold sv_cmp, then_with.
+  destruct (Nat.compare ry rx) eqn:E1; try (intros ?; discriminate).
+  destruct (String.compare kx ky) eqn:E2; try (intros ?; discriminate).
+  destruct (String.compare tx ty) eqn:E3; try (intros ?; discriminate).
+  destruct (Nat.compare lx ly) eqn:E4; try (intros ?; discriminate).
+  intros E5. apply Nat.compare_eq in E1, E4. apply scmp_eq in E2, E3. apply strs_cmp_eq in E5. now subst.
+Qed.
+
+Lemma sv_cmp_anti x y : sv_cmp y x = CompOpp (sv_cmp x y).
+Proof.
+  destruct x as [[[[rx kx] tx] lx] cx], y as [[[[ry ky] ty] ly] cy]. unfold sv_cmp.
+  rewrite (Nat.compare_antisym ry rx), (String.compare_antisym ky kx), (String.compare_antisym ty tx),
+    (Nat.compare_antisym lx ly), (strs_cmp_anti cx cy).
+  destruct (Nat.compare ry rx), (String.compare kx ky), (String.compare tx ty), (Nat.compare lx ly), (strs_cmp cx cy);
+    reflexivity.
+Qed.
+
+Lemma sv_cmp_lt_trans x y z : sv_cmp x y = Lt -> sv_cmp y z = Lt -> sv_cmp x z = Lt.
+Proof.
+  destruct x as [[[[rx kx] tx] lx] cx], y as [[[[ry ky] ty] ly] cy], z as [[[[rz kz] tz] lz] cz]. unfold sv_cmp.
+  apply then_with_lt_trans; [solve_cmp | solve_cmp | solve_cmp |].
+  apply then_with_lt_trans; [solve_cmp | solve_cmp | solve_cmp |].
+  apply then_with_lt_trans; [solve_cmp | solve_cmp | solve_cmp |].
+  apply then_with_lt_trans; [solve_cmp | solve_cmp | solve_cmp |].
+  apply strs_cmp_lt_trans.
+Qed.
+
+Lemma sv_le_total x y : sv_le x y = false -> sv_le y x = true.
+Proof. unfold sv_le. rewrite (sv_cmp_anti x y). destruct (sv_cmp x y); cbn; congruence. Qed.
+
+Lemma sv_le_trans x y z : sv_le x y = true -> sv_le y z = true -> sv_le x z = true.
+Proof.
+  unfold sv_le. intros H1 H2.
+  destruct (sv_cmp x y) eqn:E1; [apply sv_cmp_eq in E1; now subst | | discriminate].
+  destruct (sv_cmp y z) eqn:E2; [apply sv_cmp_eq in E2; subst; now rewrite E1 | | discriminate].
+  now rewrite (sv_cmp_lt_trans x y z E1 E2).
+Qed.
+
+(* the comparator is an ORDER on contents: what it cannot tell apart is the same content *)
+Lemma sv_le_antisym x y : sv_le x y = true -> sv_le y x = true -> x = y.
+Proof.
+  unfold sv_le. rewrite (sv_cmp_anti x y). destruct (sv_cmp x y) eqn:E; cbn; intros H1 H2; try discriminate.
+  now apply sv_cmp_eq.
 Qed.
 
 Lemma sp_le_total x y : sp_le x y = false -> sp_le y x = true.
-Proof.
-  unfold sp_le. intros H. break_ifs; try discriminate; try reflexivity; bool_props; try lia.
-  now apply pstr_leb_total.
-Qed.
+Proof. unfold sp_le. apply sv_le_total. Qed.
 
 Lemma sp_le_trans x y z : sp_le x y = true -> sp_le y z = true -> sp_le x z = true.
+Proof. unfold sp_le. apply sv_le_trans. Qed.
+
+(* two entries tie under the comparator of search_paths iff they have the same rank, key, search text,
+   line and chain of heading texts *)
+Lemma sp_le_ties x y : eqv sp_le x y = true <-> sp_view x = sp_view y.
 Proof.
-  unfold sp_le. intros H1 H2. break_ifs; try discriminate; try reflexivity; bool_props; try lia.
-  eapply pstr_leb_trans; eauto.
+  unfold eqv, sp_le. split.
+  - intros H. apply andb_prop in H as [H1 H2]. now apply sv_le_antisym.
+  - intros ->. rewrite (le_refl sv_le sv_le_total). reflexivity.
 Qed.
 
-(* the list handed to global_search: one entry per path, in the (canonical) sorted path order,
-   stably sorted by (rank desc, key asc): entries of the same note with the same rank stay in
-   path order *)
+(* a stable sort whose comparator reads a view [v] only, and is an order on views *)
+Section Content.
+  Context {A B : Type} (v : A -> B) (leB : B -> B -> bool).
+  Hypothesis leB_total : forall x y, leB x y = false -> leB y x = true.
+  Hypothesis leB_trans : forall x y z, leB x y = true -> leB y z = true -> leB x z = true.
+  Hypothesis leB_antisym : forall x y, leB x y = true -> leB y x = true -> x = y.
+
+  Lemma insert_stable_map x l :
+    map v (insert_stable (fun x y => leB (v x) (v y)) x l) = insert_stable leB (v x) (map v l).
+  Proof.
+    induction l as [|y r IH]; cbn [insert_stable map]; [reflexivity|].
+    destruct (leB (v x) (v y)); cbn [map]; [reflexivity | now rewrite IH].
+  Qed.
+
+  Lemma stable_sort_map l : map v (stable_sort (fun x y => leB (v x) (v y)) l) = stable_sort leB (map v l).
+  Proof.
+    unfold stable_sort. induction l as [|x l IH]; cbn [fold_right map]; [reflexivity|].
+    now rewrite insert_stable_map, IH.
+  Qed.
+
+  Lemma ssorted_antisym_unique l1 : forall l2,
+    StronglySorted (lep leB) l1 -> StronglySorted (lep leB) l2 -> Permutation l1 l2 -> l1 = l2.
+  Proof.
+    induction l1 as [|x t1 IH]; intros l2 S1 S2 P.
+    - apply Permutation_nil in P. now subst.
+    - destruct l2 as [|y t2]; [apply Permutation_sym, Permutation_nil in P; discriminate|].
+      inversion S1 as [|? ? S1t F1]; subst. inversion S2 as [|? ? S2t F2]; subst.
+      rewrite Forall_forall in F1, F2.
+      assert (Hxy : leB x y = true).
+      { assert (Hin : In y (x :: t1)) by (eapply Permutation_in; [symmetry; exact P | now left]).
+        destruct Hin as [->|Hin]; [apply (le_refl leB leB_total) | now apply F1]. }
+      assert (Hyx : leB y x = true).
+      { assert (Hin : In x (y :: t2)) by (eapply Permutation_in; [exact P | now left]).
+        destruct Hin as [->|Hin]; [apply (le_refl leB leB_total) | now apply F2]. }
+      assert (x = y) by (now apply leB_antisym). subst y. f_equal.
+      apply IH; auto. now apply Permutation_cons_inv in P.
+  Qed.
+
+  (* the sorted list, read through the view, is a function of the multiset of views *)
+  Theorem stable_sort_content l l' :
+    Permutation (map v l) (map v l') ->
+    map v (stable_sort (fun x y => leB (v x) (v y)) l) = map v (stable_sort (fun x y => leB (v x) (v y)) l').
+  Proof.
+    intros P. rewrite !stable_sort_map.
+    apply ssorted_antisym_unique; try (apply stable_sort_ssorted; assumption).
+    rewrite <- (stable_sort_perm leB (map v l)), <- (stable_sort_perm leB (map v l')). exact P.
+  Qed.
+End Content.
+
+(* C04 / C16: the order of the search paths is a function of what the paths SAY.  Two lists of entries
+   with the same contents - whatever their node ids, whatever their order - are sorted into lists that
+   read the same, position by position *)
+Theorem search_sort_content (l l' : list sentry) :
+  Permutation (map sp_view l) (map sp_view l') ->
+  map sp_view (stable_sort sp_le l) = map sp_view (stable_sort sp_le l').
+Proof. exact (stable_sort_content sp_view sv_le sv_le_total sv_le_trans sv_le_antisym l l'). Qed.
+
+(* C16: the same entries in another order are sorted into the same list, ids included, as soon as no two
+   entries say the same *)
+Theorem search_sort_perm (l l' : list sentry) :
+  Permutation l l' -> NoDup l ->
+  (forall x y, In x l -> In y l -> sp_view x = sp_view y -> x = y) ->
+  stable_sort sp_le l = stable_sort sp_le l'.
+Proof.
+  intros P ND D. apply stable_sort_perm_distinct; auto; [apply sp_le_total | apply sp_le_trans|].
+  intros x y Hx Hy E. apply D; auto. now apply sp_le_ties.
+Qed.
+
+(* ... and without that premise the two results differ at most by entries that say the same *)
+Corollary search_sort_perm_content (l l' : list sentry) :
+  Permutation l l' -> map sp_view (stable_sort sp_le l) = map sp_view (stable_sort sp_le l').
+Proof. intros P. apply search_sort_content. now apply Permutation_map. Qed.
+
+Lemma texts_of_length a p ts : texts_of a p = Ok ts -> length ts = length p.
+Proof.
+  revert ts. induction p as [|x p IH]; intros ts H; unfold texts_of in *; cbn [fold_right] in H.
+  - now injection H as <-.
+  - apply bind_ok in H as [r [Hr H]]. apply bind_ok in H as [t [_ H]]. injection H as <-.
+    cbn [length]. now rewrite (IH r Hr).
+Qed.
+
+(* what an entry of the search index shows: everything but the node ids (the symbol is built from the key,
+   the line, the root flag and the texts of the chain: server.rs path_to_symbol / render_path) *)
+Definition sobs := (nat * string * string * nat * bool * res (list string))%type.
+Definition sp_obs (a : arena) (p : spath) : sobs :=
+  (sp_rank p, sp_key p, sp_text p, sp_line p, sp_root p, texts_of a (sp_ids p)).
+Definition obs_of_view (w : sview) : sobs :=
+  let '(rk, k, t, ln, c) := w in (rk, k, t, ln, Nat.eqb (length c) 1, Ok c).
+
+(* the entries search_paths makes: one per path, in path order; the view holds all an entry shows *)
+Lemma sp_entries_shape s ps l : sp_entries s ps = Ok l ->
+  map (fun e => sp_ids (fst e)) l = ps /\
+  Forall (fun e => sp_obs (gr_arena (gs_graph s)) (fst e) = obs_of_view (sp_view e) /\
+                   sp_text (fst e) = join " " (snd e)) l.
+Proof.
+  unfold sp_entries. revert l. induction ps as [|p ps IH]; intros l E; cbn [fold_right] in E.
+  - injection E as <-. split; [reflexivity | constructor].
+  - apply bind_ok in E as [l0 [E0 E]]. apply bind_ok in E as [ts [Ets E]]. apply bind_ok in E as [tg [_ E]].
+    apply bind_ok in E as [rk [_ E]]. apply bind_ok in E as [key [_ E]]. injection E as <-.
+    destruct (IH l0 E0) as [I1 I2]. split; [cbn [map fst sp_ids]; now rewrite I1|].
+    constructor; [|exact I2]. unfold sp_obs, sp_view, obs_of_view. cbn [fst snd sp_rank sp_key sp_text sp_line sp_root sp_ids].
+    rewrite Ets, (texts_of_length _ _ _ Ets). split; reflexivity.
+Qed.
+
+(* the list handed to global_search: one entry per path, sorted by the comparator; two entries the
+   comparator cannot tell apart have the same rank, key, search text, line and chain of texts *)
 Theorem search_paths_of_ties s ps r :
   search_paths_of s ps = Ok r ->
-  exists l, map sp_ids l = ps /\ Permutation l r /\ StronglySorted (lep sp_le) r /\
-            forall z, filter (eqv sp_le z) r = filter (eqv sp_le z) l.
+  exists l, sp_entries s ps = Ok l /\ map (fun e => sp_ids (fst e)) l = ps /\
+            r = map fst (stable_sort sp_le l) /\ Permutation l (stable_sort sp_le l) /\
+            StronglySorted (lep sp_le) (stable_sort sp_le l) /\
+            forall x y, eqv sp_le x y = true <-> sp_view x = sp_view y.
 Proof.
   unfold search_paths_of. intros H. apply bind_ok in H as [l [E H]]. injection H as <-.
-  exists l. split; [|split; [apply stable_sort_perm | split]].
-  - clear -E. revert l E. induction ps as [|p ps IH]; intros l E; cbn [fold_right] in E.
-    + now injection E as <-.
-    + apply bind_ok in E as [l0 [E0 E]]. apply bind_ok in E as [t [_ E]]. apply bind_ok in E as [tg [_ E]].
-      apply bind_ok in E as [rk [_ E]]. apply bind_ok in E as [key [_ E]]. injection E as <-.
-      cbn [map sp_ids]. f_equal. now apply IH.
-  - apply stable_sort_ssorted; [apply sp_le_total | apply sp_le_trans].
-  - intros z. apply stable_sort_keeps_classes, sp_le_trans.
+  exists l. split; [exact E|]. split; [exact (proj1 (sp_entries_shape s ps l E))|]. split; [reflexivity|].
+  split; [apply stable_sort_perm|]. split; [apply stable_sort_ssorted; [apply sp_le_total | apply sp_le_trans]|].
+  apply sp_le_ties.
+Qed.
+
+(* C04_search_content.  Two graphs (two histories, two processes) whose search entries have the same
+   contents - the same multiset of (rank, key, search text, line, chain of heading texts) - hand the same
+   list to global_search, position by position, in everything an entry shows *)
+Theorem search_paths_content s s' ps ps' l l' :
+  sp_entries s ps = Ok l -> sp_entries s' ps' = Ok l' ->
+  Permutation (map sp_view l) (map sp_view l') ->
+  exists r r', search_paths_of s ps = Ok r /\ search_paths_of s' ps' = Ok r' /\
+    map (sp_obs (gr_arena (gs_graph s))) r = map (sp_obs (gr_arena (gs_graph s'))) r'.
+Proof.
+  intros E E' P. unfold search_paths_of. rewrite E, E'. cbn [bind]. do 2 eexists. split; [reflexivity|].
+  split; [reflexivity|].
+  assert (Hobs : forall t es sorted, sp_entries t es = Ok sorted -> forall m, Permutation sorted m ->
+            map (sp_obs (gr_arena (gs_graph t))) (map fst m) = map obs_of_view (map sp_view m)).
+  { intros t es l0 E0 m Pm. destruct (sp_entries_shape t es l0 E0) as [_ F].
+    rewrite !map_map. apply map_ext_in. intros e He. rewrite Forall_forall in F.
+    apply F. eapply Permutation_in; [symmetry; exact Pm | exact He]. }
+  rewrite (Hobs s ps l E _ (stable_sort_perm sp_le l)), (Hobs s' ps' l' E' _ (stable_sort_perm sp_le l')).
+  now rewrite (search_sort_content l l' P).
+Qed.
+
+(* ... and global_search, whose comparator reads the rank, the search text and the score the matcher gives
+   that text, answers the same, position by position *)
+Definition obs_rank (o : sobs) : nat := let '(rk, _, _, _, _, _) := o in rk.
+Definition obs_text (o : sobs) : string := let '(_, _, t, _, _, _) := o in t.
+Definition gso_le (qe : bool) (x y : sobs * Z) : bool :=
+  let lenx := String.length (obs_text (fst x)) in let leny := String.length (obs_text (fst y)) in
+  if qe then
+    if Nat.ltb (obs_rank (fst y)) (obs_rank (fst x)) then true
+    else if Nat.ltb (obs_rank (fst x)) (obs_rank (fst y)) then false
+    else Nat.leb lenx leny
+  else
+    if Z.ltb (snd y) (snd x) then true
+    else if Z.ltb (snd x) (snd y) then false
+    else if Nat.ltb lenx leny then true
+    else if Nat.ltb leny lenx then false
+    else Nat.leb (obs_rank (fst y)) (obs_rank (fst x)).
+
+Lemma gs_sort_obs qe b sc :
+  map (fun x : spath * Z => (sp_obs b (fst x), snd x)) (stable_sort (gs_le qe) sc) =
+  stable_sort (gso_le qe) (map (fun x : spath * Z => (sp_obs b (fst x), snd x)) sc).
+Proof.
+  set (w := fun x : spath * Z => (sp_obs b (fst x), snd x)).
+  assert (L : forall x y, gs_le qe x y = gso_le qe (w x) (w y)) by (intros [px sx] [py sy]; reflexivity).
+  unfold stable_sort. induction sc as [|x sc IH]; cbn [fold_right map]; [reflexivity|].
+  rewrite <- IH. clear IH. generalize (fold_right (insert_stable (gs_le qe)) [] sc). intros acc.
+  induction acc as [|y acc IHa]; cbn [insert_stable map]; [reflexivity|].
+  rewrite <- L. destruct (gs_le qe x y); cbn [map]; [reflexivity | now rewrite IHa].
+Qed.
+
+Theorem global_search_content qe (score : string -> Z) a a' r r' :
+  map (sp_obs a) r = map (sp_obs a') r' ->
+  map (sp_obs a) (global_search qe (map (fun p => (p, score (sp_text p))) r)) =
+  map (sp_obs a') (global_search qe (map (fun p => (p, score (sp_text p))) r')).
+Proof.
+  intros H. unfold global_search.
+  assert (G : forall b q, map (sp_obs b) (firstn 100 (map fst (stable_sort (gs_le qe) (map (fun p => (p, score (sp_text p))) q)))) =
+                          firstn 100 (map fst (stable_sort (gso_le qe) (map (fun o => (o, score (obs_text o))) (map (sp_obs b) q))))).
+  { intros b q. rewrite <- firstn_map. f_equal.
+    assert (E1 : map (fun o => (o, score (obs_text o))) (map (sp_obs b) q) =
+                 map (fun x : spath * Z => (sp_obs b (fst x), snd x)) (map (fun p => (p, score (sp_text p))) q))
+      by (rewrite !map_map; reflexivity).
+    rewrite E1, <- (gs_sort_obs qe b). rewrite !map_map. reflexivity. }
+  now rewrite (G a r), (G a' r'), H.
 Qed.
 
 (* ================================================================================================ *)
